@@ -35,15 +35,16 @@ def judge(ctx, prog, src, sig, expect=None):
         ctx.outcome('unencodable:' + ('rejected' if err is not None else 'ACCEPTED'))
         if err is None:
             ctx.violation({**sig, 'clause': 'un-encodable source must be rejected'}, f'source {src!r} compiled to {got.hex()[:200]}')
-        return
+        return got, err
     if err is not None:
         ctx.outcome('rejected')
         ctx.count('rejected:' + sig.get('family', ''))
-        return
+        return got, err
     ctx.outcome('accepted')
     if got != expect:
         ctx.violation({**sig, 'clause': 'bytes differ from the documented encoding'},
                       f'source {src[:600]!r}: compiler {got.hex()[:300]} reference {expect.hex()[:300]}')
+    return got, err
 
 
 # ---------------------------------------------------------------- block A: every instruction x operands x spellings
@@ -321,13 +322,17 @@ def ctrl_case(ctx, p):
         expect = None
     toks = refasm.tokens(prog, Style())
     for g in range(len(toks) + 1):
-        for com in (['#', 'true', 'x01', 'OP_FALSE', '#'], ['"', 'if', '{', 'push', '"']):
+        for com, pname in ((['#', 'true', 'x01', 'OP_FALSE', '#'], 'hash comment with op names'),
+                           (['"', 'if', '{', 'push', '"'], 'quote comment containing brace tokens'),
+                           (['#', '!=', 'zq', '[', ']', '{', 'FALSE', '}', '#'], 'comment that looks like a macro definition'),
+                           (['#', '~', '{', 'true', '}', '#'], 'comment that looks like a comptime block'),
+                           (['"', '~!', '"'], 'comment holding a lone comptime marker'),
+                           (['#', '}', 'else', '{', '#'], 'comment holding clause tokens')):
             n += 1
             src = ' '.join(toks[:g] + com + toks[g:])
             ctx.state((src,))
             # a comment between an instruction and its operand is not a documented position
-            judge_comment(ctx, prog, src, toks, g, expect, 'hash comment with op names' if com[0] == '#' else
-                          'quote comment containing brace tokens')
+            judge_comment(ctx, prog, src, toks, g, expect, pname)
     for ws in ('\n', '\t', '  \n\t '):
         n += 1
         src = refasm.source(prog, Style(ws=ws))
@@ -346,9 +351,23 @@ def needs_operand(tok):
         return False
 
 
+_BASE_OK = {}
+
+
 def judge_comment(ctx, prog, src, toks, g, expect, payload):
     # "everything between two hashtags or double quotes is disregarded": every symbol gap is a comment position
-    judge(ctx, prog, src, {'family': 'comments', 'payload': payload}, expect)
+    got, err = judge(ctx, prog, src, {'family': 'comments', 'payload': payload}, expect)
+    # ... so a comment never changes whether a source is accepted
+    if err is not None and expect is not None:
+        base = ' '.join(toks)
+        if base not in _BASE_OK:
+            if len(_BASE_OK) > 4096:
+                _BASE_OK.clear()
+            _BASE_OK[base] = compile_(base)[1] is None
+            ctx.ran()
+        if _BASE_OK[base]:
+            ctx.violation({'family': 'comments', 'payload': payload, 'clause': 'a comment makes an accepted source fail'},
+                          f'source {src[:300]!r}: {err!r}')
 
 
 # ---------------------------------------------------------------- block C: variables, macros, comptime
@@ -368,6 +387,13 @@ def sugar_cases():
                 [('I', 'TRUE', [])] * 2 + [('I', 'FALSE', [])] + [('I', 'TRUE', [])] * 2))
     out.append(('!= inner [ v ] { push v } != outer [ w ] { !inner [ w ] dup } !outer [ x07 ]', [P(b'\x07'), ('I', 'DUP', [])]))
     out.append(('true != late [ ] { false } !late [ ]', [('I', 'TRUE', []), ('I', 'FALSE', [])]))
+    # commented-out definitions / blocks do not exist
+    out.append(('!= m7 [ ] { true } # old: != m7 [ ] { false } # !m7 [ ]', [('I', 'TRUE', [])]))
+    out.append(('# != m7 [ ] { false } # != m7 [ ] { true } !m7 [ ]', [('I', 'TRUE', [])]))
+    out.append(('!= m7 [ a ] { push a } " !m7 [ x09 ] " !m7 [ x01 ]', [P(b'\x01')]))
+    out.append(('push ~ { true # } # false }', [P(b'\x01\x00')]))
+    out.append(('true # ~ # false', [('I', 'TRUE', []), ('I', 'FALSE', [])]))
+    out.append(('true " ~! { " false', [('I', 'TRUE', []), ('I', 'FALSE', [])]))
     # comptime
     out.append(('push ~ { true false }', [P(b'\x01\x00')]))
     out.append(('push ~ { push x0102 dup }', [P(b'\x03\x02\x01\x02\x1d')]))
